@@ -744,14 +744,21 @@ class HfProtocol(utils.EventEmitter):
         self.read_buffer.extend(data)
 
         while self.read_buffer:
-            # Locate header and trailer.
-            header = self.read_buffer.find(b'\r\n')
-            trailer = self.read_buffer.find(b'\r\n', header + 2)
-            if header == -1 or trailer == -1:
+            # Skip the <CR><LF> header. Stray delimiters are skipped too, so that the
+            # framing resynchronizes on the next response instead of pairing the
+            # trailer of one response with the header of the next one for ever.
+            start = 0
+            while start < len(self.read_buffer) and self.read_buffer[start] in b'\r\n':
+                start += 1
+
+            # Locate the trailer.
+            trailer = self.read_buffer.find(b'\r\n', start)
+            if trailer == -1:
+                self.read_buffer = self.read_buffer[start:]
                 return
 
             # Isolate the AT response code and parameters.
-            raw_response = self.read_buffer[header + 2 : trailer]
+            raw_response = self.read_buffer[start:trailer]
 
             # Consume the response bytes before parsing them, so that a line that
             # cannot be parsed is dropped instead of being parsed again each time
